@@ -45,12 +45,12 @@ def scan_args(fmt, conflict=None):
             return
         while cached[0] <= pos:
             out.append(cls)
-            cache_cls.append(size)
+            cache_cls.append((size, cls))
             cached[0] += 1
         # the same argument named with two different types by two directives (or fetched on the way to a
         # higher position with another type): no argument list has "the types the directives name"
         # (D33 territory: a wild pointer, or bytes of the cache that were never written)
-        if cache_cls[pos] != size:
+        if cache_cls[pos] != (size, cls):
             conflict[0] = True
 
     i = 0
